@@ -146,6 +146,10 @@ def ob_cache_step(v: int, perr: bool, pvol: bool, pcaching: bool, pvar: int, pre
             if hit:
                 ok = ok and calls == [] and c1.asked == [] and outcome(out) == outcome(keyref)
                 # "no extra parameters" spelled as an empty list / dict (what the web handlers pass) is still a plain evaluation
+                c5 = HContext(cache, _substates(qi, v, perr, pvol, pcaching, pvar))
+                del CALLS[:]
+                o5 = c5.evaluate(q, description="described")          # a description does not make it a different evaluation
+                ok = ok and list(CALLS) == [] and c5.asked == [] and outcome(o5) == outcome(keyref)
                 for empty in ([], {}):
                     c3 = HContext(cache, _substates(qi, v, perr, pvol, pcaching, pvar))
                     del CALLS[:]
